@@ -780,6 +780,167 @@ theorem lww_history_twin (env : Env) (s : State) (pre post : List HOp) (its1 its
       exact setItems_frame env _ _ its2 _ _ h2 hsame
     · simp at hok
 
+/-! ### exception safety over histories: rejected device requests -/
+
+private def kdev : Key := "device".toList
+
+/-- a default mapping that holds a rejected device request anywhere among its top-level items is
+rejected as a whole by the validation loop at the top of `update_defaults` -/
+theorem normaliseTop_reject (env : Env) (v : Tree) (e : Err) (hv : validateDevice env v = .error e) :
+    ∀ (new : List (Key × Tree)), ("device".toList, v) ∈ new → ∃ e', normaliseTop env new = .error e' := by
+  intro new
+  induction new with
+  | nil => intro h; simp at h
+  | cons kv rest ih =>
+    intro hm
+    obtain ⟨k0, v0⟩ := kv
+    simp only [List.mem_cons] at hm
+    rcases hm with heq | hin
+    · simp only [Prod.mk.injEq] at heq
+      obtain ⟨hk, hv0⟩ := heq
+      subst hk; subst hv0
+      exact ⟨e, by simp [normaliseTop, checkKeyVal, hv, bind, Except.bind, Except.map]⟩
+    · obtain ⟨e', he'⟩ := ih hin
+      cases hc : checkKeyVal env k0 v0 with
+      | error e0 => exact ⟨e0, by simp [normaliseTop, hc, bind, Except.bind]⟩
+      | ok v1 => exact ⟨e', by simp [normaliseTop, hc, he', bind, Except.bind]⟩
+
+/-- a device request the validation rejects, through any entry point: first item of a `set`
+call or `with` block, or anywhere in the mapping handed to `update_defaults` -/
+inductive Rejected (env : Env) : HOp → Prop
+  | set (v : Tree) (rest : List (Key × Tree)) (e : Err) :
+      validateDevice env v = .error e → Rejected env (.set (("device".toList, v) :: rest))
+  | withBlock (v : Tree) (rest : List (Key × Tree)) (e : Err) :
+      validateDevice env v = .error e → Rejected env (.withBlock (("device".toList, v) :: rest))
+  | updateDefaults (new : Dict) (v : Tree) (e : Err) :
+      ("device".toList, v) ∈ new → validateDevice env v = .error e → Rejected env (.updateDefaults new)
+
+/-- **a rejected request raises and leaves the WHOLE module state unchanged** — configuration
+(hence the stored device) and the accumulated defaults, so that a later `refresh` is not
+poisoned by it -/
+theorem rejected_noop (env : Env) (s : State) (op : HOp) (h : Rejected env op) :
+    hstep env s op = s ∧ ∃ e, hstepErr env s op = some e := by
+  cases h with
+  | set v rest e hv =>
+    have := device_reject env s.config [] v rest e hv
+    exact ⟨by simp only [hstep]; rw [this], e, by simp only [hstepErr]; rw [this]⟩
+  | withBlock v rest e hv =>
+    have := device_reject env s.config [] v rest e hv
+    exact ⟨by simp only [hstep]; rw [this], e, by simp only [hstepErr]; rw [this]⟩
+  | updateDefaults new v e hm hv =>
+    obtain ⟨e', he'⟩ := normaliseTop_reject env v e hv new hm
+    exact ⟨by simp [hstep, updateDefaultsP, he'], e', by simp [hstepErr, updateDefaultsP, he']⟩
+
+/-- **rejected requests can be dropped from any history**: a caller that catches the exceptions
+and carries on ends in exactly the state it would have reached without ever making those calls
+(so every history theorem above holds verbatim with rejected requests interleaved) -/
+theorem rejected_history_erase (env : Env) (pre rej post : List HOp) (s : State)
+    (h : ∀ op ∈ rej, Rejected env op) :
+    hrun env s (pre ++ rej ++ post) = hrun env s (pre ++ post) := by
+  have hrej : ∀ (rej : List HOp) (s : State), (∀ op ∈ rej, Rejected env op) → hrun env s rej = s := by
+    intro rej
+    induction rej with
+    | nil => intro s _; rfl
+    | cons op rest ih =>
+      intro s h
+      simp only [hrun, List.foldl_cons]
+      rw [(rejected_noop env s op (h op (by simp))).1]
+      exact ih s (fun o ho => h o (by simp [ho]))
+  simp only [hrun, List.foldl_append]
+  have := hrej rej (List.foldl (hstep env) s pre) h
+  simp only [hrun] at this
+  rw [this]
+
+/-! ### `refresh(path=…)`: what the user's yaml files add on top of the defaults -/
+
+/-- with no configuration directory `refresh(path)` is the hermetic `refresh()` of the history
+theorems -/
+theorem refreshFrom_missing (env : Env) (s : State) :
+    refreshFromP env s .missing = refreshP env s := by
+  unfold refreshFromP
+  rcases h : refreshP env s with ⟨s1, e⟩
+  cases e with
+  | some e => rfl
+  | none => simp [collect, collectYaml, merge, bind, Except.bind, updateP, pure, Except.pure]
+
+/-- **refresh with yaml files** that does not raise: the configuration is the merge of the
+accumulated defaults followed by the collected files (sorted by name, later files win), and
+the defaults are untouched -/
+theorem refreshFrom_spec (env : Env) (s s' : State) (pk : PathKind)
+    (h : refreshFromP env s pk = (s', .none)) :
+    ∃ c, collect env pk = .ok c ∧ merge env (s.defaults ++ [c]) = .ok s'.config ∧
+      s'.defaults = s.defaults := by
+  unfold refreshFromP at h
+  rcases h1 : refreshP env s with ⟨s1, e1⟩
+  rw [h1] at h
+  cases e1 with
+  | some e => simp at h
+  | none =>
+    simp only [] at h
+    cases hc : collect env pk with
+    | error e => simp [hc] at h
+    | ok c =>
+      simp only [hc] at h
+      refine ⟨c, rfl, ?_, ?_⟩
+      · have hs1 : merge env s.defaults = .ok s1.config := by
+          simp only [refreshP] at h1
+          rcases hgo : refreshP.go env [] s.defaults with ⟨cfg, e⟩
+          rw [hgo] at h1
+          simp only [Prod.mk.injEq] at h1
+          obtain ⟨hs, he⟩ := h1
+          subst he
+          rw [← hs]
+          exact refreshP_go_ok env _ _ _ hgo
+        simp only [merge] at hs1 ⊢
+        rw [List.foldlM_append, hs1]
+        simp only [Prod.mk.injEq] at h
+        obtain ⟨hcfg, herr⟩ := h
+        rw [← hcfg]
+        simp only [List.foldlM_cons, List.foldlM_nil, bind, Except.bind, update]
+        rcases hu : updateP env Priority.new false s1.config none c with ⟨d, e⟩
+        rw [hu] at herr
+        simp only [] at herr
+        subst herr
+        simp [pure, Except.pure]
+      · simp only [Prod.mk.injEq] at h
+        rw [← h.1]
+        have : s1.defaults = s.defaults := by
+          have := refreshP_defaults env s
+          rw [h1] at this
+          exact this
+        simpa using this
+
+/-! ### `with set(...)` blocks with a body, `get` options -/
+
+/-- entering a block and leaving it at once restores the state, also with other blocks open
+around it (so `with A: with B: pass` is the identity as well) -/
+theorem xenter_xexit_noop (env : Env) (x : XState) (items : List (Key × Tree))
+    (h : (xenter env x items).2 = .none) : xexit (xenter env x items).1 = x := by
+  unfold xenter at h ⊢
+  rcases hs : setItems env x.s.config [] items with ⟨cfg, rec_, e⟩
+  rw [hs] at h
+  cases e with
+  | some e => simp at h
+  | none =>
+    simp only [xexit]
+    rw [with_block_restores env items x.s.config cfg rec_ .none hs]
+
+/-- **`get` options**: a non-`None` `override_with` is returned whatever it is (0, False, ""
+included); a stored value is returned whatever default is given; an absent key gives the
+default whatever its truthiness; without a default the exception of the plain walk escapes -/
+theorem get_options_spec (d : Dict) (keys : List Key) (dflt : Option Tree) :
+    (∀ a, a ≠ Atom.none → getFull d keys dflt (.leaf a) = .ok (.leaf a)) ∧
+    (∀ kvs, getFull d keys dflt (.node kvs) = .ok (.node kvs)) ∧
+    (∀ t, Config.get d keys = .ok t → getFull d keys dflt (.leaf .none) = .ok t) ∧
+    (∀ e dv, Config.get d keys = .error e → getFull d keys (some dv) (.leaf .none) = .ok dv) ∧
+    (∀ e, Config.get d keys = .error e → getFull d keys .none (.leaf .none) = .error e) := by
+  refine ⟨?_, ?_, ?_, ?_, ?_⟩
+  · intro a ha; cases a <;> simp_all [getFull]
+  · intro kvs; simp [getFull]
+  · intro t h; simp [getFull, h]
+  · intro e dv h; simp [getFull, h]
+  · intro e h; simp [getFull, h]
+
 /-! ### non-vacuity: concrete states meeting the hypotheses -/
 
 private def kab : Key := ['a', '_', 'b']
@@ -885,5 +1046,44 @@ example : OpOK (.updateDefaults [(kab', .leaf (.int 7))]) ∧ OpOK .refresh := b
   refine ⟨.node _ ?_ ?_, trivial⟩
   · intro k t h; simp at h; rw [h.1]; unfold Uniform; decide
   · intro k t h; simp at h; rw [h.2]; exact .leaf _
+
+/-! non-vacuity of the growth-5 theorems -/
+private def envC : Env := { cuda := true, mps := false, numDevices := 2 }
+
+/-- accepted requests in a CUDA environment, a request at the device count, malformed strings -/
+example : validateDeviceFull envC (.leaf (.int 1)) = .ok (.str "cuda:1", 1) ∧
+    validateDeviceFull envC (.leaf (.int 2)) = .error .runtimeError ∧
+    validateDeviceFull env0 (.leaf (.str "CPU")) = .ok (.str "cpu", -1) ∧
+    validateDeviceFull envC (.leaf (.str "xgpux")) = .error .valueError ∧
+    validateDeviceFull envC (.leaf (.str "GPU")) = .ok (.str "cuda:0", 0) ∧
+    validateDeviceFull envC (.leaf (.bool true)) = .error .runtimeError := ⟨rfl, rfl, rfl, rfl, rfl, rfl⟩
+example : Accepted envC (.str "cuda:1") 1 := .cuda 1 rfl (by decide)
+
+/-- rejected requests through the three entry points, and a history with them interleaved -/
+example : Rejected env0 (.set [("device".toList, .leaf (.int (-1))), (kab, .leaf (.int 3))]) ∧
+    Rejected env0 (.updateDefaults [(kab, .leaf (.int 3)), ("device".toList, .leaf (.str "tpu"))]) :=
+  ⟨.set _ _ .valueError rfl, .updateDefaults _ (.leaf (.str "tpu")) .valueError (by simp) rfl⟩
+example : (hrun env0 { config := cfg0, defaults := [] }
+      [.updateDefaults [(kab, .leaf (.int 3)), ("device".toList, .leaf (.str "tpu"))], .refresh]).defaults = [] := by rfl
+
+/-- a refresh that reads one user file on top of one default mapping -/
+example : refreshFromP env0 { config := [], defaults := [cfg0] } (.file (.dict [(kab', .leaf (.int 5))])) =
+    ({ config := [(kab, .leaf (.int 5)), (kviz, .node [(kcmap, .leaf (.str "gray"))])], defaults := [cfg0] }, .none) := by
+  simp [refreshFromP, refreshP, refreshP.go, collect, collectYaml, loadFiles, merge, update, updateP, updateLeaf,
+    checkKeyVal, canonicalName, defaultsGet, dhas, dget, dset, altKey, swapSU, cfg0, kab, kab', kviz, kcmap,
+    bind, Except.bind, pure, Except.pure]
+example : (sortByName [⟨"b.yml", .empty⟩, ⟨"B.yaml", .empty⟩, ⟨"10.yaml", .empty⟩]).map (·.name) =
+    ["10.yaml", "B.yaml", "b.yml"] := by rfl
+example : loadFiles [.empty, .dict cfg0, .unreadable] = .ok [cfg0] ∧ loadFiles [.dict cfg0, .nonDict] = .error .valueError :=
+  ⟨rfl, rfl⟩
+
+/-- a block entered inside another open block -/
+example : (xenter env0 { s := { config := cfg0, defaults := [] }, stack := [[.insert [kpc]]] }
+    [(kab', .leaf (.int 2)), (kvizpc, .leaf (.int 1))]).2 = .none := by rfl
+
+/-- falsy override / default values -/
+example : getFull cfg0 [kpc] (some (.leaf (.int 0))) (.leaf .none) = .ok (.leaf (.int 0)) ∧
+    getFull cfg0 [kab] .none (.leaf (.bool false)) = .ok (.leaf (.bool false)) ∧
+    getFull cfg0 [kab'] (some (.leaf (.int 0))) (.leaf .none) = .ok (.leaf (.int 1)) := ⟨rfl, rfl, rfl⟩
 
 end QuantemModel.Props.C19
